@@ -16,6 +16,9 @@ for f in glob.glob("/tmp/seeddemo*_results.txt"):
         if m:
             sid = m.group(2) + (R2[m.group(3)] if m.group(1) else m.group(3))
             demo[sid] = (m.group(4), m.group(5), m.group(6))
+        m = re.match(r"/tmp/seed/out-(C\d+[a-z]) .*HEAD: rc=(\S+) .*PATCHED: rc=(\S+) .*=> (\S+)", l)   # round 5: one directory per seed id
+        if m:
+            demo[m.group(1)] = (m.group(2), m.group(3), m.group(4))
 ctest = {}
 for f in sorted(glob.glob("/tmp/seedconfirm_results*.txt")):
     for l in open(f):
@@ -23,6 +26,10 @@ for f in sorted(glob.glob("/tmp/seedconfirm_results*.txt")):
         if m:
             sid = m.group(1) + (R2[m.group(3)] if m.group(2) else m.group(3))
             ctest[sid] = (m.group(4), m.group(5).strip(), m.group(6).strip())
+        m = re.match(r"COMBINED\(([^)]*)\): build=(\S+) (.*tests passed.*?) notpassed:\s*(.*)$", l)   # several independent patches applied together, one run
+        if m:
+            for sid in m.group(1).split("+"):
+                ctest[sid] = (m.group(2), m.group(3).strip() + " [one run with the patches " + m.group(1) + " applied together; they touch different files]", m.group(4).strip())
 rows = []
 kept = 0
 for sid in sorted(det):
